@@ -216,14 +216,15 @@ Proof.
   unfold restricted_eval. destruct (first_bad wl t) as [k'|] eqn:E.
   - split; [intros [= <- <-]; auto|intros [[= <-] ->]; reflexivity].
   - split; [|intros [? _]; discriminate].
+    destruct (in_fragment t); [|discriminate].
     intros H. pose proof (py_eval_not_rej env truthy t) as Hn.
     unfold not_rej in Hn. rewrite H in Hn. destruct Hn.
 Qed.
 
 Lemma restricted_eval_accepted env truthy wl t :
-  first_bad wl t = None ->
+  first_bad wl t = None -> in_fragment t = true ->
   restricted_eval env truthy wl (Some t) = py_eval env truthy t.
-Proof. unfold restricted_eval. now intros ->. Qed.
+Proof. unfold restricted_eval. now intros -> ->. Qed.
 
 (* ---------- the CompletionEvaluator whitelist (generated) ---------- *)
 Definition safe6 : list string := ["Expression"; "Name"; "Load"; "BoolOp"; "And"; "Or"].
